@@ -14,9 +14,18 @@
  * otherwise run outside the scheduler).  When no thread is runnable the
  * process prints a QUIESCENT line (listing blocked threads) and exits 0.
  *
+ * Thread resources are simulated as well: a thread holds one unit from its
+ * creation until its start routine has returned AND it has been detached or
+ * joined (what the kernel does with the stack of a real thread).  With
+ * VERIF_MAX_THREADS=n, pthread_create fails with EAGAIN while n units are held,
+ * as it does at RLIMIT_NPROC / vm.max_map_count; with VERIF_FAIL_CREATE=k the
+ * k-th pthread_create of the process fails with EAGAIN (injected fault).  Each
+ * refusal is reported on standard error ("FAULT pthread_create ...").
+ *
  * Environment: VERIF_SEED (decimal), VERIF_SPURIOUS (per-mille probability of a
  * spurious wake-up per scheduling step), VERIF_SCHED_LOG (file: one line per
- * scheduling decision, for determinism checks), VERIF_MAX_STEPS (default 200000).
+ * scheduling decision, for determinism checks), VERIF_MAX_STEPS (default 200000),
+ * VERIF_MAX_THREADS, VERIF_FAIL_CREATE.
  */
 #define _GNU_SOURCE
 #include <dlfcn.h>
@@ -45,6 +54,7 @@ typedef struct {
 	void *arg;
 	void *ret;
 	int woken; /* cond waiter: has been signalled */
+	int released; /* detached or joined */
 } Th;
 
 typedef struct {
@@ -67,6 +77,7 @@ static long steps, maxsteps = 200000;
 static int spurious_pm;
 static int logfd = -1;
 static int active; /* scheduler engaged (after first pthread_create) */
+static int max_threads, fail_create, ncreate;
 
 static int (*real_sem_wait)(sem_t *);
 static int (*real_sem_post)(sem_t *);
@@ -111,6 +122,10 @@ static void init(void) {
 	if (s) maxsteps = atol(s);
 	s = getenv("VERIF_SCHED_LOG");
 	if (s) logfd = open(s, O_WRONLY | O_CREAT | O_TRUNC, 0644);
+	s = getenv("VERIF_MAX_THREADS");
+	if (s) max_threads = atoi(s);
+	s = getenv("VERIF_FAIL_CREATE");
+	if (s) fail_create = atoi(s);
 	/* the initial thread is thread 0 and holds the baton */
 	memset(&ths[0], 0, sizeof ths[0]);
 	ths[0].used = 1; ths[0].id = 0; ths[0].state = ST_RUN; ths[0].tid = pthread_self();
@@ -203,12 +218,32 @@ static void *trampoline(void *p) {
 int pthread_create(pthread_t *th, const pthread_attr_t *attr, void *(*fn)(void *), void *arg) {
 	init();
 	active = 1;
+	ncreate++;
+	if (fail_create && ncreate == fail_create) {
+		dprintf(2, "FAULT pthread_create #%d -> EAGAIN (injected)\n", ncreate);
+		point();
+		return EAGAIN;
+	}
+	if (max_threads) {
+		int held = 0;
+		for (int i = 1; i < nth; i++)
+			if (!(ths[i].state == ST_DONE && ths[i].released)) held++;
+		if (held >= max_threads) {
+			dprintf(2, "FAULT pthread_create #%d -> EAGAIN (%d threads hold resources: finished threads are neither detached nor joined)\n", ncreate, held);
+			point();
+			return EAGAIN;
+		}
+	}
 	if (nth == MAXTH) { dprintf(2, "DETSCHED: thread table full\n"); _exit(98); }
 	Th *t = &ths[nth];
 	memset(t, 0, sizeof *t);
 	t->used = 1; t->id = nth; t->state = ST_RUN; t->fn = fn; t->arg = arg;
 	real_sem_init(&t->run, 0, 0);
 	nth++;
+	if (attr) {
+		int ds = 0;
+		if (pthread_attr_getdetachstate(attr, &ds) == 0 && ds == PTHREAD_CREATE_DETACHED) t->released = 1;
+	}
 	int rc = real_pthread_create(&t->tid, attr, trampoline, t);
 	if (rc != 0) { nth--; return rc; }
 	if (th) *th = t->tid;
@@ -223,12 +258,18 @@ int pthread_join(pthread_t th, void **ret) {
 			point();
 			while (ths[i].state != ST_DONE) block(ST_JOIN, &ths[i]);
 			if (ret) *ret = ths[i].ret;
+			ths[i].released = 1;
 			return 0;
 		}
 	return ESRCH;
 }
 
-int pthread_detach(pthread_t th) { (void)th; return 0; }
+int pthread_detach(pthread_t th) {
+	init();
+	for (int i = 0; i < nth; i++)
+		if (pthread_equal(ths[i].tid, th)) { ths[i].released = 1; return 0; }
+	return ESRCH;
+}
 
 int sched_yield(void) { init(); point(); return 0; }
 
